@@ -122,7 +122,8 @@ func (r Row) scanBytes(i int) []byte {
 	case string:
 		return []byte(rv)
 	case []byte:
-		return rv
+		// a copy: the record's bytes point into the page cache
+		return append([]byte(nil), rv...)
 	default:
 		panic("impossible")
 	}
